@@ -14,10 +14,27 @@ class Infra(Exception):
     """Infrastructure failure (build error, TLC crash, timeout): exit 2, never a violation."""
 
 
+def trim_build_cache(min_free_gb=25, older_than_min=75):
+    """Every check rebuilds the harness against the working tree of /repo, so every change of /repo leaves another
+    set of compiled packages in Go's build cache (hundreds of MB each; 130 GB filled the disk once).  When the disk
+    runs low the entries not used for a while are removed (Go refreshes the modification time of an entry it uses once
+    an hour); nothing depends on them, they are rebuilt when needed."""
+    try:
+        cache = subprocess.run(["go", "env", "GOCACHE"], capture_output=True, text=True, env=GOENV, timeout=30).stdout.strip()
+        st = os.statvfs(cache if cache and os.path.isdir(cache) else "/")
+        if st.f_bavail * st.f_frsize > min_free_gb << 30 or not cache or not os.path.isdir(cache):
+            return
+        subprocess.run(["find", cache, "-type", "f", "-mmin", "+%d" % older_than_min, "-delete"], timeout=900,
+                       stdout=subprocess.DEVNULL, stderr=subprocess.DEVNULL)
+    except Exception:
+        pass
+
+
 class Ctx:
     def __init__(self, pid, tier, seed):
         self.pid, self.tier, self.seed = pid, tier, seed
         self.t0 = time.time()
+        trim_build_cache()
         self.work = os.path.join(VERIF, ".work", "%s.%d" % (pid, os.getpid()))
         shutil.rmtree(self.work, ignore_errors=True)
         os.makedirs(self.work)
